@@ -288,20 +288,20 @@ HOSTILE = {
     'expr_slice': ['a:b', 'a:b:c, d', '*a', '*not a', '][', 'a][b', ':', '::', 'a,', '', 'x for x in y', 'a:b]=[c'],
     'expr_all': ['a,\n"é"', '*ü,\n"é"', '*a\n ,', '*ab\n  ,', '*a  # c\n ,', '*é\n  ,', '*a,', '*a\n,', '*a', 'a:b', 'a:b:c, d', 'a, b', 'a,\nb', '*a, *b', '*a\n, b', 'x for x in y', '', 'a := b', 'yield', '*not a', '*a\n  ,  # c',
                  '*(a)\n ,', '*a \\\n ,', ')+(', 'a][b', 'a)(b', ':', '*a:b'],
-    'expr_arglike': ['*a', '*not a', 'a, b', 'a=b', '**a', 'x for x in y', ')(', 'a)(b', '', 'a:b'],
+    'expr_arglike': ['f(a ,\n b)', 'f(a,\n b),', '*f(a,\n b)\n,', '*a', '*not a', 'a, b', 'a=b', '**a', 'x for x in y', ')(', 'a)(b', '', 'a:b'],
     '_arglikes': ['x=1,\n*b', '  a,\nb, c=1', '        k=1,\n    *s,\n**kw', 'a, b', 'a, *b, k=1, **d', '', 'a)(b', 'a for x in y', '(a for x in y), b', 'k=1, *a', 'a,', '*a, b=c, *d', 'a=1, b', 'a,\n      k=v,\n  *c,\nj=w',
                   '**d, k=1', 'a\n,\nk=1\n,', ')(', 'a, # c\n b=1 # d\n', 'é=1,\n*ü'],
-    '_arglike': ['a for x in y', '(a for x in y)', '*a', '**k', 'k=v', 'a, b', 'a=b, c', '', 'a)(b', ')(', '*not a', 'k=x for x in y', 'a := b', 'yield', '(yield)', 'a,', 'k=v,'],
-    'keyword': ['a=1', 'a=1, b=2', '**k', 'a', 'a=1)(b=2', 'a=1), _(b=2', '', 'a=(yield)', 'a = 1,', 'a=1 # c', '*a', 'a==1', 'a=x for x in y'],
+    '_arglike': ['f(a ,\n b)', 'f(a,\n b),', 'k=f(a,\n b)\n,', '*f(a ,\n b)', 'a for x in y', '(a for x in y)', '*a', '**k', 'k=v', 'a, b', 'a=b, c', '', 'a)(b', ')(', '*not a', 'k=x for x in y', 'a := b', 'yield', '(yield)', 'a,', 'k=v,'],
+    'keyword': ['a=(1 ,\n 2)', 'a=(1,\n 2),', 'a=(1,\n 2)\n,', 'a=1', 'a=1, b=2', '**k', 'a', 'a=1)(b=2', 'a=1), _(b=2', '', 'a=(yield)', 'a = 1,', 'a=1 # c', '*a', 'a==1', 'a=x for x in y'],
     'arguments': [')->(', 'a)->(b', 'a, b=1, /, c, *, d, **e', '', '*', 'a=', 'a: int=3', '*a: *b', '): pass\ndef g(', 'a,', '/', 'self, /,', '**k,'],
     'arguments_lambda': [': lambda', 'a: b', 'a, *b, c=1, **d', '', 'a=1: None)+(lambda', 'a,', '*'],
-    'arg': ['a: *b, **c', 'a: *b, c', 'a: *b, *, c', 'a: *b = 1', 'a: *b, /', 'a: *b,', 'a', 'a: int', 'a=1', 'a, b', '*a', 'a: *b', '', 'a)->(b', 'a: (x := 1)'],
+    'arg': ['a: (b ,\n c)', 'a: (b,\n c),', 'a: (b,\n c)\n,', 'a: *b, **c', 'a: *b, c', 'a: *b, *, c', 'a: *b = 1', 'a: *b, /', 'a: *b,', 'a', 'a: int', 'a=1', 'a, b', '*a', 'a: *b', '', 'a)->(b', 'a: (x := 1)'],
     'Import_name': ['a', 'a.b as c', '*', 'a, b', 'a as b, c', '', 'a;b', 'a.b.c', '(a)', 'a as'],
     'ImportFrom_name': ['a', 'a as b', '*', 'a.b', 'a, b', '', '(a)', 'a)\nfrom . import (b'],
     '_Import_names': ['a, b.c as d', 'a,', '', '*', 'a;import b'],
     '_ImportFrom_names': ['a, b as c', '*', 'a,', '', '*, a', 'a)\nfrom . import (b'],
-    'withitem': ['a', 'a as b', 'a, b', '(a, b)', '(a, b) as c', 'a as b,', '', 'a)as(b', 'a): pass\nwith (b', 'x for x in y', '(yield)', 'yield', 'a := b', '(a) as (b)', 'a as (b, c)', 'a as b.c', '(a as b)'],
-    '_withitems': ['a, b', 'a as b, c as d', '(a, b)', '(a), (b)', '', 'a,', 'a), (b', '(a as b), c', 'a as b)if(c'],
+    'withitem': ['(a ,\n b) as c', 'a as (b ,\n c)', 'a as (b,\n c),', 'a as (b,\n c)\n,', 'a', 'a as b', 'a, b', '(a, b)', '(a, b) as c', 'a as b,', '', 'a)as(b', 'a): pass\nwith (b', 'x for x in y', '(yield)', 'yield', 'a := b', '(a) as (b)', 'a as (b, c)', 'a as b.c', '(a as b)'],
+    '_withitems': ['a) as (b', 'a)as(b', 'a) as (b,', 'f(a)) as (b', 'a, b', 'a as b, c as d', '(a, b)', '(a), (b)', '', 'a,', 'a), (b', '(a as b), c', 'a as b)if(c'],
     'ExceptHandler': ['except: pass', 'except E as e:\n    pass', 'except* E: pass', 'except: pass\nexcept: pass', 'except: pass\nelse: pass', 'finally: pass', '', 'except (A, B): pass',
                       ' except: pass', 'except: pass\nfinally: pass\ntry: pass'],
     '_ExceptHandlers': ['except A: pass\nexcept B: pass', '', 'except: pass\nelse: pass', 'except* A: pass\nexcept* B: pass', 'except A: pass\nexcept* B: pass'],
@@ -310,7 +310,7 @@ HOSTILE = {
     '_comprehensions': ['.y for a in b', '(x) for a in b', '+ 1 for a in b', '[0] for a in b', 'or z for a in b', 'if q else r for a in b', 'for a in b for c in d', '', 'if x for a in b', 'for a in b] + [c for d in e'],
     '_comprehension_ifs': ['.y if a', '(x) if a', '+ 1 if a', 'or z if a', 'if a if b', '', 'for a in b', 'if a for b in c', 'if a] + [b'],
     '_decorator_list': ['@a', '@a\n@b(c)', '', 'a', '@a\nclass X: pass\n@b', '@a # c\n\n@b', '@(yield)'],
-    'type_param': ['T', 'T: int', '*Ts', '**P', 'T, U', '', 'T = int', 'T] = int; type X[U'],
+    'type_param': ['T: (a ,\n    b)', 'T\n,', 'T,\n', 'T: (a,\n b) # c\n,', 'T: (a,\n b),', 'T: (a,\n b)  ,', 'T = (a ,\n b)', '*Ts = (a,\n b),', 'T', 'T: int', '*Ts', '**P', 'T, U', '', 'T = int', 'T] = int; type X[U'],
     '_type_params': ['T, U', 'T: int, *Ts, **P', '', 'T,', 'T] = int; type X[U'],
     'stmt': ["'é';", "x = 'ü'; y", 'a', 'a = 1', 'a; b', 'a\nb', 'if a: pass', '', 'pass;', ' a', '# c', 'if a:\n  pass\nelse:\n  pass'],
 }
@@ -511,7 +511,9 @@ def check_fragment(ctx, mode, src, origin):
                 first, last = kids[0], kids[-1]
                 srcb = [l.encode() for l in src.split('\n')]
                 code_end = max(((i + 1, len(l.split(b'#')[0].rstrip())) for i, l in enumerate(srcb) if l.split(b'#')[0].strip()), default=(1, 0))
-                if (g.lineno, g.col_offset) != (first.lineno, first.col_offset) or (g.end_lineno, g.end_col_offset) < (last.end_lineno, last.end_col_offset) or \
+                lead_ok = (g.lineno, g.col_offset) == (first.lineno, first.col_offset) or (
+                    g.lineno == first.lineno and g.col_offset < first.col_offset and not srcb[g.lineno - 1][g.col_offset:first.col_offset].strip(b'( \t'))   # the first element's own parentheses
+                if not lead_ok or (g.end_lineno, g.end_col_offset) < (last.end_lineno, last.end_col_offset) or \
                         ((g.end_lineno, g.end_col_offset) > code_end and "'" not in src and '"' not in src):
                     ctx.violation(f'tree|{mode}|unparenthesized-sequence-span', 'an unparenthesized sequence does not span from its first element to the end of its last one',
                                   {**rec, 'span': [g.lineno, g.col_offset, g.end_lineno, g.end_col_offset], 'first_element_start': [first.lineno, first.col_offset],
@@ -699,6 +701,165 @@ def stage_fragments(ctx: Ctx, progs):
                 ctx.violation(f'operator|{mode}', 'operator mode result differs from the operator of the full expression', {'mode': mode, 'src': op, 'got': str(got), 'want': str(want)})
 
 
+ALL_FIRSTS = ['yield a', 'yield', 'yield from a', 'await x', 'await a.b', 'lambda: 0', 'lambda a, *b: (a, b)', 'a', 'match', 'type', 'case', 'True', 'None', 'False', 'if a: pass', 'for a in b: pass',
+              'async def f(): pass', 'pass', 'x = 1', '(a)', '[a]', '-a', '"s"', '1', '*a, = b', '@d\ndef f(): pass', 'not a', '~a', '...', 'f"{a}"', 'match a:\n case 1: pass', 'type X = int',
+              'del a', 'import a', 'from a import b', 'with a: pass', 'try: pass\nfinally: pass', 'class c: pass', 'global a', 'return', 'raise', 'assert a', 'while a: pass', 'é = 1', '"é"',
+              'b"x"', '{a: b}', '{a}', 'a if b else c', 'a, b', 'a.b', 'a[b]', 'a(b)', 'a: int', 'a += 1', 'a := 1', 'match.x', 'type[x]', 'async for a in b: pass', 'async with a: pass',
+              'yield \\\n  v', 'await g(\n    ä,\n)', 'lambda: None  # c', 'a as b', 'a:b', '*a', 'k=v', 'for a in b', 'if a', 'except: pass', 'case 1: pass', 'a |', '1 | 2', 'a=1, b',
+              'elif a: pass', 'else: pass', 'finally: pass', '@d', 'T: int', '**P', 'a, /, b', 'x for x in y', 'import', 'from . import a', 'a.b as c', 'not', 'is not', '+', 'and']
+ALL_SECONDS = ['y', 'yield b', 'foo()', 'x = 1  # ü', 'return 1', 'w += 1', 'class c: pass', '# only a comment', 'if q: pass', 'as z', ', z', 'for z in w', 'if z', 'case 2: pass', 'except A: pass', '| c']
+ALL_JOINS = ['\n', '; ', '\n\n\n', '\n# c\n', ';', '  # c\n']
+
+
+def mode_of_result(a):
+    n = type(a).__name__
+    if isinstance(a, ast.expr):
+        return 'expr_all'
+    if isinstance(a, ast.pattern):
+        return 'pattern'
+    if isinstance(a, ast.stmt):
+        return 'stmt'
+    if isinstance(a, ast.Module):
+        return 'exec'
+    return n if n in EMB or n == '_arglikes' else None
+
+
+def stage_all_mode(ctx: Ctx, progs):
+    """the default parse mode 'all' (what FST(src) uses): source that python parses as a module gives python's tree - the module, its only statement or the expression of its only
+    expression statement - positions included, source unchanged, whatever word it starts with; source python does not parse gives a node only if the text is valid for the mode
+    that node belongs to (embedding oracle of the fragment stage) and then the same tree as that mode"""
+    import fst
+    srcs = []
+    for a_ in ALL_FIRSTS:
+        srcs.append(a_)
+        srcs += [a_ + '\n', '\n' + a_, ' ' + a_, '# c\n' + a_, a_ + ';', a_ + ' \\\n']
+        for j in ALL_JOINS:
+            for b_ in ALL_SECONDS:
+                srcs.append(a_ + j + b_)
+    for m, l in HOSTILE.items():
+        srcs += l
+    for m, l in ESCAPES.items():
+        srcs += l
+    for p in progs[:ctx.scale(15, 120)]:
+        srcs.append(p)
+        try:
+            t = ast.parse(p)
+        except SyntaxError:
+            continue
+        for i, s in enumerate(t.body[:6]):
+            seg = ast.get_source_segment(p, s)
+            if seg:
+                srcs.append(seg)
+                if i + 1 < len(t.body) and (seg2 := ast.get_source_segment(p, t.body[i + 1])):
+                    srcs.append(seg + '\n' + seg2)
+    for src in dict.fromkeys(srcs):
+        try:
+            # a line continuation that ends the text is taken as going on into an empty last line (parsex._ast_parse, deliberate: such text is a fragment put somewhere later)
+            ref = ast.parse(src + '\n' if src.endswith('\\\n') else src)
+        except (SyntaxError, ValueError):
+            ref = None
+        try:
+            f = fst.FST(src)
+            err = None
+        except (SyntaxError, ValueError, fst.NodeError) as e:
+            f, err = None, e
+        except RecursionError:
+            continue
+        except Exception as e:
+            ctx.violation(f'crash|all|{type(e).__name__}', 'the parser raised something other than a syntax/parse error', {'mode': 'all', 'src': src, 'error': repr(e)})
+            continue
+        ctx.tick(('all', src), f'all:{"module" if ref is not None else "fragment"}:{"accepted" if f is not None else "rejected"}')
+        rec = {'mode': 'all', 'src': src}
+        if ref is not None:
+            if f is None:
+                ctx.violation('valid-rejected|all', "source python parses as a module was rejected by the default mode 'all'", {**rec, 'error': repr(err)})
+                continue
+            if f.src != src:
+                ctx.violation('lossy|all', 'building the tree changed the source text', {**rec, 'got': f.src})
+                continue
+            a = f.a
+            want = ref
+            if isinstance(a, ast.stmt) and len(ref.body) == 1:
+                want = ref.body[0]
+            elif isinstance(a, ast.expr) and len(ref.body) == 1 and isinstance(ref.body[0], ast.Expr):
+                want = ref.body[0].value
+            d = cmp_ast(a, want, positions=True) if type(a) is type(want) else [f'node type {type(a).__name__} where python gives {type(want).__name__} ({len(ref.body)} statements)']
+            if d:
+                ctx.violation('tree|all', "the default mode 'all' gives something other than python's tree for source python parses", {**rec, 'diffs': d[:6]})
+            continue
+        if f is None:
+            continue
+        mode = mode_of_result(f.a)
+        if mode is None or mode in ('stmt', 'exec'):
+            if mode is not None:
+                ctx.violation('invalid-accepted|all|statements', "source python does not parse was accepted as statements", {**rec, 'tree': ast.dump(f.a)[:300]})
+            continue
+        if f.src != src:
+            ctx.violation('lossy|all', 'building the tree changed the source text', {**rec, 'got': f.src})
+            continue
+        if src.endswith('\\\n'):
+            continue        # the ending line continuation again: the embedding oracle has no place for it
+        check_fragment(ctx, mode, src, 'hostile')
+        try:
+            g = fst.FST(src, mode)
+        except Exception:
+            continue        # judged by check_fragment
+        d = cmp_ast(f.a, g.a, positions=True)
+        if d:
+            ctx.violation(f'tree|all-vs-{mode}', f"the default mode 'all' gives another tree than the mode {mode!r} its result belongs to", {**rec, 'diffs': d[:6]})
+
+
+TC_BASES = {
+    'type_param': ['T', 'T: int', 'T: (a,\n b)', 'T: (a ,\n    b)', '*Ts', '**P', 'T = (a ,\n b)', 'T: (a,\n b) = (c,\n d)', 'Té: "é"'],
+    'keyword': ['a=1', 'a=(1,\n 2)', 'a=(1 ,\n    2)', '**k', '**f(a,\n b)', 'é="é"'],
+    'withitem': ['a', 'a as b', 'a as (b,\n c)', '(a ,\n b) as c', 'f(a,\n b)', 'f(a ,\n    b) as c'],
+    'arg': ['a', 'a: int', 'a: (b,\n c)', 'a: (b ,\n    c)', 'é: "é"'],
+    '_arglike': ['a', 'f(a,\n b)', 'k=f(a,\n b)', '*a', '*f(a ,\n   b)', '**k', '**f(a,\n b)'],
+    'expr_arglike': ['a', 'f(a,\n b)', '*a', '*f(a ,\n   b)'],
+    'pattern': ['a', '[a,\n b]', 'C(a ,\n  b)', '{1: a,\n 2: b}'],
+    'expr': ['a', '(a,\n b)', 'f(a ,\n   b)', '[a,\n b]'],
+    'expr_slice': ['a', 'a:b', 'a:f(b,\n c)', 'f(a ,\n   b)'],
+    'expr_all': ['a', '*a', 'a:b', 'f(a ,\n   b)', '*f(a,\n b)'],
+    'Import_name': ['a', 'a as b', 'a.b'],
+    'ImportFrom_name': ['a', 'a as b'],
+    'comprehension': ['for a in b', 'for a in (b,\n c)', 'for a in b if (c ,\n d)'],
+    'arguments': ['a', 'a=(1,\n 2)', '*a', '**k', 'a, /', '*, a', 'a: (b ,\n  c)'],
+    'arguments_lambda': ['a', 'a=(1,\n 2)', '*a', '**k'],
+}
+TC_TAILS = [',', ' ,', '\n,', ' # c\n,', ',\n', ', # c', '\n  ,', ' \\\n,', ',\n# c']
+
+
+def stage_trailing_comma(ctx: Ctx):
+    """a trailing comma after a single element: whether a mode takes it or refuses it (the one-element modes refuse it, the sequence-capable ones make a sequence of it) may not depend
+    on where the comma stands - same line, next line, behind a comment, behind a continuation - nor on the element running over several lines; the element alone is always accepted"""
+    import fst
+    for mode, bases in TC_BASES.items():
+        for base in bases:
+            check_fragment(ctx, mode, base, 'plain')
+            outcomes = {}
+            for tail in TC_TAILS:
+                if mode in ('Import_name', 'ImportFrom_name') and ('#' in tail or '\n' in tail):
+                    continue
+                src = base + tail
+                try:
+                    f = fst.FST(src, mode)
+                    out = type(f.a).__name__
+                    if f.src != src:
+                        ctx.violation(f'lossy|{mode}', 'building the tree changed the source text', {'mode': mode, 'src': src, 'got': f.src})
+                except (SyntaxError, ValueError, fst.NodeError):
+                    out = 'rejected'
+                except Exception as e:
+                    ctx.violation(f'crash|{mode}|{type(e).__name__}', 'the parser raised something other than a syntax/parse error', {'mode': mode, 'src': src, 'error': repr(e)})
+                    continue
+                ctx.tick((mode, src), f'trailing-comma:{mode}:{out if out == "rejected" else "accepted"}')
+                outcomes.setdefault(out, []).append(src)
+                if out != 'rejected':
+                    check_fragment(ctx, mode, src, 'hostile')
+            if len(outcomes) > 1:
+                ctx.violation(f'trailing-comma-layout|{mode}', 'whether a trailing comma after the element is taken depends on the layout of the fragment',
+                              {'mode': mode, 'element': base, 'outcomes': {k_: v[:4] for k_, v in outcomes.items()}})
+
+
 def stage_guard(ctx: Ctx):
     """_verify_no_close_delimiters vs models/Wrap.v guard on the text the harness computes to be outside the elements"""
     from fst import parsex
@@ -805,6 +966,8 @@ def run(ctx: Ctx):
     progs = corpus(ctx.rng, gen=ctx.scale(15, 120))
     run_guarded(ctx, stage_whole, progs)
     run_guarded(ctx, stage_fragments, progs)
+    run_guarded(ctx, stage_all_mode, progs)
+    run_guarded(ctx, stage_trailing_comma)
 
 
 def replay(path):
